@@ -9,8 +9,9 @@ for n in range(1, 11):
     HARNESSES.append({"name": "ftm%d" % n, "fn": T + "VerifC02FTM%d" % n, "bounds": "n=%d values |v| < 2^62, any placement of floor((n-1)/3) faulty ones" % n, "thorough_only": n > 5})
 for n in range(1, 9):
     HARNESSES.append({"name": "median%d" % n, "fn": T + "VerifC02Median%d" % n, "bounds": "n=%d" % n, "thorough_only": n > 5})
-for n in range(2, 3):
-    HARNESSES.append({"name": "perm%d" % n, "fn": T + "VerifC02Perm%d" % n, "bounds": "n=%d, any permutation (direct form; larger n by the rank specification)" % n, "thorough_only": True})
+for n in range(2, 8):
+    HARNESSES.append({"name": "perm%d" % n, "fn": T + "VerifC02Perm%d" % n, "bounds": "FTM, n=%d, any adjacent transposition of the inputs" % n, "thorough_only": n > 4})
+    HARNESSES.append({"name": "permM%d" % n, "fn": T + "VerifC02PermM%d" % n, "bounds": "Median, n=%d, any adjacent transposition of the inputs" % n, "thorough_only": n > 4})
 HARNESSES.append({"name": "mmidpoint", "fn": MM + "VerifC02MMidpoint", "bounds": "|offsets| < 2^62, instants < 2^62 ns"})
 HARNESSES.append({"name": "mempty", "fn": MM + "VerifC02MEmpty", "bounds": "n = 0"})
 for n in range(1, 9):
@@ -19,3 +20,6 @@ for n in range(1, 7):
     HARNESSES.append({"name": "mmedian%d" % n, "fn": MM + "VerifC02MMedian%d" % n, "bounds": "n=%d measurements" % n, "thorough_only": n > 4})
 ASSUMPTIONS = ["slices.Sort / slices.SortFunc replaced by their contract (arbitrary sorted permutation)"]
 EXPLANATION = "timemath/measurements selection functions executed from go/ssa; sort by contract"
+CLAIMED = True
+LEVEL_TEXT = "Bounded model checking: for each n up to the tier bound, all n-tuples of 64-bit offsets below 2^62, every placement of the floor((n-1)/3) arbitrary values and every adjacent transposition of the inputs are covered by solver queries over the real selection code; the sort is replaced by its contract (any sorted permutation)."
+LEVEL_NOTE = "slices.Sort/SortFunc are contract stubs (arbitrary sorted permutation, real comparator closure executed); n above the tier bound (quick 5/4, thorough 10/8) is outside the claim; time.Time in the ns64 contract model."
